@@ -257,7 +257,11 @@ pub fn m10<T: Flavor>(p: &GenericPurl<T>, case: &Value, acc: &mut Acc) {
 /// entries that its text lists, and its text is the canonical form of R.
 pub fn m12<T: Flavor>(p: &GenericPurl<T>, case: &Value, acc: &mut Acc) -> bool {
     use purl::qualifiers::well_known::Checksum;
-    let Some(text) = p.qualifiers().get("checksum") else { return false };
+    // (found by iteration, not by lookup: a collection whose order is broken hides the pair from `get`)
+    let Some(text) = p.qualifiers().iter().find(|(k, _)| k.as_str().eq_ignore_ascii_case("checksum")).map(|(_, v)| v) else { return false };
+    if p.qualifiers().get("checksum") != Some(text) {
+        acc.violate(Violation { prop: "C12", kind: "checksum-not-retrievable".into(), case: case.clone(), detail: format!("the PURL lists the qualifier checksum={:?} but get(\"checksum\") gives {:?}", text, p.qualifiers().get("checksum")) });
+    }
     acc.calls += 1;
     match R::checksum_canonical(text) {
         None => acc.violate(Violation { prop: "C12", kind: "checksum-not-wellformed".into(), case: case.clone(), detail: format!("checksum text {:?} of an accepted PURL is malformed", text) }),
